@@ -280,8 +280,32 @@ def rule_metrics_present(check):
         check.expect(ok, R, R + "/result-metrics", hir.loc(n), "Result.metrics = get_metrics(..)", "Result.metrics is %s" % hir.describe(e))
 
 
+def rule_prologue_own(check):
+    """PROLOGUE-OWN: the prologue a rewriter inserts is built from its own configuration"""
+    R = "PROLOGUE-OWN"
+    check.rule(R, "what fills Config::file_prefix_code is computed by to_config / generate_prefix_stmts from their arguments alone: no function on that path reads or fills a static (a prologue memoised process-wide is the first rewriter's - empty if its template did not parse - and a modified result of every later rewriter carries that one, or none)")
+    prog = check.prog
+    g = prog.fn("rewriter::generate_prefix_stmts")
+    fns = prog.flat(g, 4)
+    callers = [f for f, n, c in prog.call_sites() if hir.is_call(n) and c["name"] == "generate_prefix_stmts" and not f.rec.get("gen") and not f.rec.get("in_test") and prog.resolve_local(n) is not None]
+    for f in callers:
+        if f.def_path not in {x.def_path for x in fns}:
+            fns.append(f)
+    check.expect(bool(callers), R, R + "/ANCHOR/callers", "-", "generate_prefix_stmts is called from %s" % sorted({f.name for f in callers}), "nothing calls generate_prefix_stmts: anchor lost")
+    hits = []
+    for f in fns:
+        for n in f.nodes():
+            if n.get("k") == "Path" and n["res"].get("res") == "Def" and n["res"].get("kind", "").startswith("Static") and not n.get("exp"):
+                hits.append((f, n))
+    for f, n in hits:
+        check.bad(R, "%s/%s" % (R, f.name), hir.loc(n), "%s, on the way to the file prologue, uses the static %s: the prologue no longer depends only on the configuration of the rewriter that emits it" % (f.name, (n["res"].get("path") or n["res"].get("def") or "?")))
+    if not hits:
+        check.ok(R, R + "/no-statics", hir.loc(g.rec), "no static is read or written in %s" % sorted(f.name for f in fns))
+
+
 def run(check):
     check.guarded("PRINT-GATE", rule_print_gate)
+    check.guarded("PROLOGUE-OWN", rule_prologue_own)
     check.guarded("METRICS-PRESENT", rule_metrics_present)
     from . import c04
 
